@@ -27,12 +27,12 @@ PROP = "C06"
 DRIVER_MODULES = ["PsutilModel.Model.C06Gen", "PsutilModel.Spec.C06", "PsutilModel.Spec.C06Ext"]
 NEEDS_EXT = True
 TRUSTED = [
-    "C06 renderers: Spec.renderStat / Spec.renderStatus are transcriptions of do_task_stat / proc_pid_status (Name: escapes only \\n and \\\\); validated on every run against the live kernel's files of this process, its parent, PID 1 and a child renamed with prctl(PR_SET_NAME) to hostile names, not verified",
+    "C06 renderers: Spec.renderStat / Spec.renderStatus are transcriptions of do_task_stat / proc_pid_status (Name: escapes only \\n and \\\\); validated on every run against the live kernel's files of this process, its parent, PID 1, children renamed with prctl(PR_SET_NAME) to hostile names and task/<tid>/stat of threads of this process that renamed themselves (`w) S 1 2 3`, …), not verified",
     "C06 regex model: re.findall on the four bytes patterns KEY(SEP(\\d+)){n} [(?m)^ anchored], SEP in {\\t, \\s} with none/*/+ (from the translator), is modelled as leftmost, non-overlapping, maximal-run matching (digits and the separator class are disjoint, so greedy backtracking cannot change a match); patterns outside that family are pinned by their exact source only",
     "C06 int()/float(): modelled on optional '-' + ASCII digits (what the kernel prints); '+', '_' , exponents, inf/nan are not generated",
     "C06 floats: implementation doubles are compared with the model's exact rationals within relative 1e-12",
     "C06 /dev: glob's pattern matching is the real module's, run on a scratch tree holding one file per entry of the case (plus decoys); os.stat('/dev/..') is answered from the case (S_ISCHR/st_rdev/FileNotFoundError); the order of glob's result is the case's listing order",
-    "C06 threads(): os.listdir of the task directory is scripted (shuffled order); a vanished thread = listed directory without stat file (ENOENT only, not ESRCH); 'process gone at the end' = os.stat(/proc/<pid>) and os.path.exists(/proc/<pid>/stat) fail while the fake procfs still serves the file (no zombie records in that sub-family)",
+    "C06 threads(): os.listdir of the task directory is scripted (shuffled order); a vanished thread = listed directory without stat file (ENOENT), or _pslinux.open_binary patched for that one path to raise ProcessLookupError / to return a file whose read() raises it (ESRCH); 'process gone at the end' = os.stat(/proc/<pid>) and os.path.exists(/proc/<pid>/stat) fail while the fake procfs still serves the file (no zombie records in that sub-family)",
 ]
 MANIFEST = {
     "level_text": "Machine-checked Lean 4 proofs that the model of _parse_stat_file/name/ppid/status/cpu_times/create_time/cpu_num/terminal and of threads() inverts the kernel's stat renderer for EVERY comm byte string (any bytes, any number of parentheses, blanks, newlines), every state letter, unbounded counters, old-kernel records without the trailing fields (C06_stat_roundtrip and its per-method corollaries, C06_threads_exact, C06_old_kernel_iowait_zero), that PROC_STATUSES is the documented letter table (C06_status_letter_map, decide over the generated dict), and that uids/gids/num_threads/num_ctx_switches extract the real lines of a status file rendered with the kernel's Name: escaping for every name (C06_status_extract, C06_ctx_switches_extract), with groups that accept exactly non-empty ASCII-digit runs so that no byte string can make them raise ValueError (C06_status_tokens_digits_only, C06_status_match_shape). Round 2 adds the code around the parsers: terminal() through the real get_terminal_map over an abstract /dev in any listing order with vanishing entries and aliases (C06_terminal_map_exact_code: TerminalMapExact_Full for the code as it is, non-device files included, since get_terminal_map tests S_ISCHR - fact tmapChecksChr pinned by xcfg_good / cfg_tmap_checks_chr; refuted for the configuration without the test by a regular file with st_rdev 0, C06_terminal_nondevice_counterexample), histories of calls in one interpreter: the memoised map answers, i.e. every call is exact for the /dev of the FIRST terminal() call (C06_terminal_memoized, C06_terminal_first_scan_wins) and for the current /dev whenever /dev did not change (C06_terminal_unchanged_dev_exact); C06_terminal_stale_counterexample only characterises the memoisation (a pty created later is not seen; by design, beyond the property's quantifier), create_time() end to end from the text of /proc/stat and /proc/<pid>/stat with the BOOT_TIME pin (C06_boot_time_exact, C06_create_time_end_to_end, C06_create_time_uses_pinned_boot_time), and the VALUE and ORDER of threads() for every os.listdir order and every set of threads that vanish mid-scan (C06_threads_order: string order of the names; C06_threads_value, C06_threads_gone, C06_threads_old_kernel). The theorems hold for the configuration cfg_good, a proof obligation fed by translator facts (indices, find/rfind, regex keys, anchoring and separator form - 'exactly one tab' is a fact, not a model constant -, binary open mode; cfg_status_patterns: the exact source of the four compiled status regexes as the imported module holds them, so that any edit of a pattern breaks the obligation; xcfg_good: glob patterns, FileNotFoundError guard, memoize, btime key/index, cached boot time, sort, vanish handling); for the pre-fix configurations the negations are proved with concrete witnesses (thread named `a) b`; process named `Uid:\\t0\\t0\\t0`; text-mode reading with `\\r`). Tie: translator + differential run of the real Process methods over a fake procfs and a redirected /dev, called plainly, inside oneshot(), through as_dict(), on the objects of process_iter() and through process_iter(attrs).info.",
@@ -269,6 +269,18 @@ def gen_procstat(rng, btime):
     return {"pre": [l.encode().hex() for l in pre], "btime": btime, "post": [l.encode().hex() for l in post]}
 
 
+def vanished_thread(rng, tid):
+    """a thread that ended between listdir() and the read of its stat file; the signal is ENOENT at open (the
+    directory is gone), or ESRCH at open / at read() (the directory entry was still there)"""
+    t = {"vanished": True, "tid": tid}
+    r = rng.random()
+    if r < 0.25:
+        t["esrch"] = "open"
+    elif r < 0.5:
+        t["esrch"] = "read"
+    return t
+
+
 def tid_of(t):
     return t["rec"]["pid"] if "rec" in t else t["tid"]
 
@@ -282,7 +294,8 @@ def add_world(case, rng):
         case["dev2"] = gen_dev2(rng, case["dev"], tty or 34816)
     case["tmap"] = []
     case["procstat"] = gen_procstat(rng, case["btime"])
-    if rng.random() < 0.3:
+    if rng.random() < 0.3 or case["btime"] == 0:
+        # btime 0: BOOT_TIME is pinned to 0.0, which is falsy in `BOOT_TIME or boot_time()`: the second call re-reads
         case["procstat2"] = gen_procstat(rng, rng.choice([case["btime"] + 1, case["btime"] + 3600, 1, 2 ** 31]))
     threads = list(case["threads"])
     if rng.random() < 0.15:
@@ -292,15 +305,19 @@ def add_world(case, rng):
             if len(threads) > 1 and rng.random() < 0.5:
                 i = rng.randrange(len(threads))
                 if tid_of(threads[i]) != case["pid"] or rng.random() < 0.3:
-                    threads[i] = {"vanished": True, "tid": tid_of(threads[i])}
+                    threads[i] = vanished_thread(rng, tid_of(threads[i]))
                     continue
             t = rng.choice([8, 11, 98, 101, 1000, rng.randrange(1, 4194304)])
             if t not in have:
                 have.add(t)
-                threads.append({"vanished": True, "tid": t})
+                threads.append(vanished_thread(rng, t))
         # (the fake procfs keeps serving /proc/<pid>/stat of the "gone" process to _raise_if_zombie(): no 'Z' records here)
         if rng.random() < 0.25 and rec and rec["state"] != 90:
             case["alive"] = False
+    elif rng.random() < 0.04 and rec and rec["state"] != 90:
+        # the process is gone by the end of the scan although every listed thread could be read: the liveness check
+        # runs only after a vanished thread (hit_enoent starts as False), so the list is returned
+        case["alive"] = False
     case["threads"] = threads
     # process_iter() objects / .info are observed on every second case (quick-tier budget)
     case["iter_modes"] = rng.random() < 0.5
@@ -345,6 +362,8 @@ def gen_case(rng, family):
     pid = rng.choice([1, 2, 42, 4194303, rng.randrange(2, 4194304)])
     tck = rng.choice([100, 100, 100, 250, 1000, 1024, 60, 1])
     btime = rng.choice([1, 1700000000, 1759000000, 2 ** 31 - 1, 2 ** 32 + 5, rng.randrange(1, 2 ** 33)])
+    if rng.random() < 0.04:
+        btime = 0
     tmap = gen_tmap(rng)
     ttys = [e[0] for e in tmap]
     comm = None
@@ -370,7 +389,10 @@ def gen_case(rng, family):
         tcomm = comm_b if (i == 0 and rng.random() < 0.5) else (
             rng.choice([b"a) b", b") S 1 1 1", b"x) R 0 0 0 0 0 0", b"w) ", b"(a)) 5 5"]) if (family in ("threads", "paren") and rng.random() < 0.6)
             else gen_comm(rng))
-        threads.append({"rec": gen_stat_rec(rng, t, style=style, comm=tcomm, ttys=ttys)})
+        trec = gen_stat_rec(rng, t, style=style, comm=tcomm, ttys=ttys)
+        if i > 0 and rng.random() < 0.7:
+            trec["f"][34] = -1            # exit_signal of a non-leader thread (live kernel: -1)
+        threads.append({"rec": trec})
     status = gen_status_rec(rng, comm_b, pid, stat["f"][0], nthr)
     case = separate_main_thread(
         {"family": family, "pid": pid, "tck": tck, "btime": btime, "tmap": tmap, "stat": {"rec": stat},
@@ -388,6 +410,8 @@ def gen_malformed(rng):
     pid = case["pid"]
     kind = rng.choice(["truncate", "noparen", "garbage", "negative", "status_missing", "status_onectx", "status_noctx",
                        "thread_short", "thread_garbage", "empty", "state_ws"])
+    if kind.startswith("thread") and not any("rec" in x for x in case["threads"]):
+        kind = "garbage"                 # every thread of this case vanished mid-scan: nothing to damage
     case["malformed_kind"] = kind
     rec = case["stat"]["rec"]
     toks = [bytes([rec["state"]])] + [str(x).encode() for x in rec["f"]] + [str(x).encode() for x in (rec["tail"] or [])]
@@ -565,6 +589,21 @@ class _Shim:
         return getattr(self.__dict__["_real"], name)
 
 
+class _EsrchFile:
+    """task/<tid>/stat that was opened in time, but whose thread is gone when it is read: read() → ESRCH"""
+    def __enter__(self):
+        return self
+
+    def __exit__(self, *a):
+        return False
+
+    def read(self, *a):
+        raise ProcessLookupError(3, "No such process")
+
+    def close(self):
+        pass
+
+
 class Impl:
     def __init__(self, ctx):
         self.ps = get_ps(ctx)
@@ -575,11 +614,23 @@ class Impl:
         self.task_dir = None       # path whose os.listdir answer is scripted
         self.task_listing = None
         self.gone_path = None      # path whose os.stat raises FileNotFoundError (process gone at the end of threads())
+        self.esrch = {}            # path -> "open" | "read": where ProcessLookupError (ESRCH) is raised for that file
         posix = self.ps._psposix
-        self.saved = [(posix, "glob", posix.glob), (posix, "os", posix.os), (self.plat, "os", self.plat.os)]
+        self.saved = [(posix, "glob", posix.glob), (posix, "os", posix.os), (self.plat, "os", self.plat.os),
+                      (self.plat, "open_binary", self.plat.open_binary)]
+        self.real_open_binary = self.plat.open_binary
+        self.plat.open_binary = self._open_binary
         posix.glob = _Shim(_real_glob, glob=self.dev.glob)
         posix.os = _Shim(os, stat=self.dev.stat)
         self.plat.os = _Shim(os, listdir=self._listdir, stat=self._stat, path=_Shim(os.path, exists=self._exists))
+
+    def _open_binary(self, fname, *a, **kw):
+        how = self.esrch.get(fname)
+        if how == "open":
+            raise ProcessLookupError(3, "No such process", fname)
+        if how == "read":
+            return _EsrchFile()
+        return self.real_open_binary(fname, *a, **kw)
 
     def _listdir(self, path="."):
         if self.task_dir is not None and path == self.task_dir:
@@ -632,9 +683,12 @@ class Impl:
         fp.mkdir(d + "task")
         for tid, hx in files["threads"]:
             fp.write(d + "task/%d/stat" % tid, bytes.fromhex(hx))
+        self.esrch = {}
         for t in case["threads"]:
             if t.get("vanished"):
                 fp.mkdir(d + "task/%d" % t["tid"])       # listed, but its stat file is gone when opened
+                if t.get("esrch"):
+                    self.esrch["%s/%d/task/%d/stat" % (fp.root, pid, t["tid"])] = t["esrch"]
         if "listing" in case:
             self.task_dir = "%s/%d/task" % (fp.root, pid)
             self.task_listing = case["listing"]
@@ -670,8 +724,16 @@ class Impl:
             with p.oneshot():
                 for m in order:
                     out["oneshot:" + m] = fakeproc.outcome(getter(m))
-                for m in ("threads", "cpu_times", "name") + (("uids", "num_threads") if has_status else ()):
+                # every getter a SECOND time: now every cache is warm (stat parse, status text, front-end caches)
+                for m in order:
                     out["oneshot2:" + m] = fakeproc.outcome(getter(m))
+                # the front end answers create_time() from Process._create_time: ask the platform method itself,
+                # which inside oneshot() computes from the memoised stat parse + the pinned BOOT_TIME
+                if well_formed:
+                    out["oneshot_proc:create_time"] = fakeproc.outcome(p._proc.create_time)
+                    out["oneshot_proc:ppid"] = fakeproc.outcome(p._proc.ppid)
+                    # … and once more: a getter that wrote into the memoised dict would answer differently now
+                    out["oneshot_proc2:create_time"] = fakeproc.outcome(p._proc.create_time)
         except BaseException as e:  # noqa: BLE001 — oneshot() itself failing is an observable
             if isinstance(e, (KeyboardInterrupt, SystemExit)):
                 raise
@@ -796,8 +858,6 @@ def fix_listing(case):
     tids = [tid_of(t) for t in case["threads"]]
     if "listing" in case and sorted(case["listing"]) != sorted(tids):
         case["listing"] = sorted(tids, reverse=True)
-    if case.get("alive") is False and not any(t.get("vanished") for t in case["threads"]):
-        case.pop("alive")
     return case
 
 
@@ -893,15 +953,35 @@ def case_features(case):
         f.add("procstat2:clock-step")
     if any(t.get("vanished") for t in case["threads"]):
         f.add("threads:vanished-mid-scan")
+        for t in case["threads"]:
+            if t.get("vanished"):
+                f.add("threads:vanish-signal-" + ("esrch-" + t["esrch"] if t.get("esrch") else "enoent"))
         if case.get("alive") is False:
             f.add("threads:process-gone-at-end")
+    elif case.get("alive") is False:
+        f.add("threads:process-gone-nothing-vanished")
+    if case.get("btime") == 0:
+        f.add("btime:zero")
+        if "procstat2" in case:
+            f.add("procstat2:reread-after-zero-btime")
     if "listing" in case and len(case["listing"]) > 1:
         f.add("listing:in-name-order" if case["listing"] == sorted(case["listing"], key=str) else "listing:not-in-name-order")
         if sorted(case["listing"], key=str) != sorted(case["listing"]):
             f.add("listing:name-order!=numeric-order")
+    pcomm = bytes.fromhex(st["rec"]["comm"]) if "rec" in st else None
     for t in case["threads"]:
-        if "rec" in t and b")" in bytes.fromhex(t["rec"]["comm"]):
-            f.add("thread-comm:rparen")
+        if "rec" in t:
+            tc = bytes.fromhex(t["rec"]["comm"])
+            if b")" in tc:
+                f.add("thread-comm:rparen")
+            if b") " in tc:
+                f.add("thread-comm:rparen-blank")
+            if tc != pcomm:
+                f.add("thread-comm:differs-from-process-name")
+                if t["rec"]["pid"] == case["pid"]:
+                    f.add("thread-comm:main-thread-renamed")
+            for ft in comm_features(tc) & {"comm:newline", "comm:non-utf8", "comm:len15", "comm:lparen", "comm:empty"}:
+                f.add("thread-" + ft)
     if case.get("malformed_kind"):
         f.add("malformed:" + case["malformed_kind"])
     return f
@@ -970,7 +1050,32 @@ def exhaustive_cases():
         c = dict(base, stat={"rec": dict(base["stat"]["rec"], comm=cm.hex())},
                  status={"rec": dict(base["status"]["rec"], comm=cm.hex())}, threads=main, iter_modes=False)
         out.append(c)
-    return out, n_state, len(comms), len(rel)
+    # THREAD names (the comm of a thread is its own: prctl(PR_SET_NAME) / pthread_setname_np act on one task): every
+    # comm of length <= 3 over the alphabet, and every `x) yz` around the sequence that ends the name field, as names
+    # of threads of a process called `main` (7 secondary threads per case, each with its own counters)
+    alpha1 = [b""] + alpha
+    tnames = [c for c in comms if c] + [x + b") " + y + z for x in alpha1 for y in alpha1 for z in alpha1]
+    seen, uniq = set(), []
+    for nm in tnames:
+        if nm not in seen:
+            seen.add(nm)
+            uniq.append(nm)
+    per = 7
+    for a in range(0, len(uniq), per):
+        chunk = uniq[a:a + per]
+        ths = [{"rec": dict(trec, comm=b"main".hex())}]
+        for k, nm in enumerate(chunk):
+            f = list(trec["f"])
+            f[10], f[11] = 1000 + 17 * (a + k), 5 + 3 * (a + k)
+            f[9], f[12] = 7, 9           # the columns a first-`)` parse would read instead
+            ths.append({"rec": dict(trec, pid=base["pid"] + 1 + k, comm=nm.hex(), f=f)})
+        c = dict(base, stat={"rec": dict(base["stat"]["rec"], comm=b"main".hex())},
+                 status={"rec": dict(base["status"]["rec"], comm=b"main".hex())}, threads=tid_order(ths),
+                 iter_modes=False)
+        c["listing"] = sorted((tid_of(t) for t in ths), reverse=True)
+        c.pop("alive", None)
+        out.append(c)
+    return out, n_state, len(comms), len(rel), len(uniq)
 
 
 def run_cases(ctx, impl, cases, res, source_tag=None):
@@ -1012,11 +1117,11 @@ def correspond(ctx, res):
             cases.append(gen_case(ctx.rng, FAMILIES[i % len(FAMILIES)]))
         for i in range(n_mal):
             cases.append(gen_malformed(ctx.rng))
-        ex, n_state, n_comm, n_rel = exhaustive_cases()
+        ex, n_state, n_comm, n_rel, n_tn = exhaustive_cases()
         lines = run_cases(ctx, impl, cases, res)
         lines += run_cases(ctx, impl, ex, res)
         res.exhaustive = ("every state byte 0..255 (%d records) and every comm of length <= 3 over {'(', ')', ' ', '\\n', 'a', 0xff} "
-                          "(%d names, for the process, its status file and its thread) and every 15-byte name <suffix of Uid:/Gid:/Threads:/nonvoluntary_ctxt_switches:><'', ' ' or TAB><digits> digit- or left-padded (%d names); the random families are samples" % (n_state, n_comm, n_rel))
+                          "(%d names, for the process, its status file and its thread) and every 15-byte name <suffix of Uid:/Gid:/Threads:/nonvoluntary_ctxt_switches:><'', ' ' or TAB><digits> digit- or left-padded (%d names) and, as names of secondary THREADS of a process called `main`, every comm of length 1..3 over that alphabet and every x + ') ' + y + z (%d thread names); the random families are samples" % (n_state, n_comm, n_rel, n_tn))
         res.extra["driver_lines"] = lines
     finally:
         impl.close()
@@ -1236,20 +1341,52 @@ def _renamed_child(name):
     return pid, cleanup
 
 
+THREAD_NAMES = (b"w) S 1 2 3", b"a) b\n(c\\d", b"\xff\xfe )(", b"main", b") ")
+
+
+def _renamed_threads(names):
+    """one thread per name inside THIS process; each renames ITSELF (PR_SET_NAME acts on the calling task only, so the
+    process name stays) and parks. Returns ([(tid, name)], stop)"""
+    import threading
+    import time
+    libc = ctypes.CDLL(None, use_errno=True)
+    stop, lock, ready = threading.Event(), threading.Lock(), []
+
+    def run(nm):
+        buf = ctypes.create_string_buffer(nm + b"\0")
+        libc.prctl(15, buf, 0, 0, 0)
+        with lock:
+            ready.append((threading.get_native_id(), nm))
+        stop.wait(60)
+    ths = [threading.Thread(target=run, args=(nm,), daemon=True) for nm in names]
+    for t in ths:
+        t.start()
+    t0 = time.time()
+    while len(ready) < len(names) and time.time() - t0 < 5:
+        time.sleep(0.005)
+
+    def finish():
+        stop.set()
+        for t in ths:
+            t.join(5)
+    return list(ready), finish
+
+
 def live_cases(live):
     """the LIVE kernel's records of this process and of the prctl-renamed children (incl. `ctxt_switches:7`), strictly
     parsed and re-rendered byte-identically, as correspondence cases"""
     import random
     rng = random.Random(77)
     out = []
-    for label, rec, srec in live or []:
+    for label, rec, srec, trecs in live or []:
         c = gen_case(rng, "mixed")
         c["family"] = "live"
         c["pid"] = rec["pid"]
         c["stat"] = {"rec": rec}
         c["status"] = {"rec": srec}
-        c["threads"] = [{"rec": dict(rec)}]
-        c["listing"] = [rec["pid"]]
+        # the live per-thread records (task/<tid>/stat of threads that renamed themselves) next to the main thread's
+        c["threads"] = tid_order([{"rec": dict(rec)}] + [{"rec": dict(t)} for t in trecs if t["pid"] != rec["pid"]])
+        c["listing"] = sorted((tid_of(t) for t in c["threads"]), reverse=True)
         c.pop("alive", None)
         out.append(c)
     return out
@@ -1269,6 +1406,21 @@ def validate_renderers(ctx, res):
         except OSError:
             pass
     grab("self", os.getpid())
+    # per-THREAD records of the live kernel: threads of this process with hostile names of their own
+    thr_samples = []
+    try:
+        named, finish = _renamed_threads(THREAD_NAMES)
+    except Exception:  # noqa: BLE001 — no prctl / no threads: validation of the thread records is skipped
+        named, finish = [], (lambda: None)
+    try:
+        for tid, nm in named:
+            try:
+                with open("/proc/%d/task/%d/stat" % (os.getpid(), tid), "rb") as f:
+                    thr_samples.append(("thread:%r" % nm, f.read(), nm))
+            except OSError:
+                pass
+    finally:
+        finish()
     grab("parent", os.getppid())
     grab("init", 1)
     for nm in (b"Uid:\t0\t0\t0", b"a) b\n(c\\d", b"x\rUid:\t0\t0\t0", b"\xff\xfe )(", b"123456789012345678", b"ctxt_switches:7"):
@@ -1291,13 +1443,25 @@ def validate_renderers(ctx, res):
         lines.append({"op": "proc", "tck": 100, "btime": 1, "tmap": [], "stat": {"rec": rec}, "status": {"rec": srec}, "threads": []})
         meta.append((label, st, su))
         parsed.append((label, rec, srec))
+    thr_parsed = []
+    for label, st, nm in thr_samples:
+        rec = strict_parse_stat(st)
+        if rec is None or bytes.fromhex(rec["comm"]) != nm[:15]:
+            res.notes.append("renderer validation: live thread record %s not in the modelled layout" % label)
+            res.count("renderer-validation:skipped")
+            continue
+        lines.append({"op": "proc", "tck": 100, "btime": 1, "tmap": [], "stat": {"rec": rec}, "status": None, "threads": []})
+        meta.append((label, st, None))
+        thr_parsed.append(rec)
     if not lines:
         res.notes.append("renderer validation: no live record could be read")
         return []
     answers = ctx.driver().batch(lines)
     bad = []
     for (label, st, su), ans in zip(meta, answers):
-        ok = "files" in ans and bytes.fromhex(ans["files"]["stat"]) == st and bytes.fromhex(ans["files"]["status"]) == su
+        ok = "files" in ans and bytes.fromhex(ans["files"]["stat"]) == st and (su is None or bytes.fromhex(ans["files"]["status"]) == su)
+        if label.startswith("thread:"):
+            res.count("renderer-validation:thread-record-" + ("ok" if ok else "MISMATCH"))
         res.count("renderer-validation:ok" if ok else "renderer-validation:MISMATCH")
         if not ok:
             bad.append(label)
@@ -1305,4 +1469,4 @@ def validate_renderers(ctx, res):
     if bad:
         raise InfraError("C06 kernel renderers do not reproduce the live kernel's files for: %s "
                          "(the trusted renderer is wrong for this kernel; not a psutil violation)" % bad)
-    return [p for p in parsed if p[0] == "self" or p[0].startswith("renamed")]
+    return [p + (thr_parsed if p[0] == "self" else [],) for p in parsed if p[0] == "self" or p[0].startswith("renamed")]
